@@ -91,6 +91,14 @@ def _emit(outs, s_true, s_false, positive):
 
 
 def _membership(w, e, s, l, r, positive, outs):
+    # x in frozenset(L) / set(L) / tuple(L) / list(L) / sorted(L): the same question as x in L (the
+    # collection was built from L on this path and holds exactly its members)
+    while is_call(r, ("builtin:frozenset", "builtin:set", "builtin:tuple", "builtin:list", "builtin:sorted")) and len(r[2]) == 1 and not r[3] and not (isinstance(r[2][0], tuple) and r[2][0] and r[2][0][0] in ("comp", "gen")):
+        inner = r[2][0]
+        ti = s.types(inner)
+        if ti is not None and ti <= {"dict"} and False:
+            break
+        r = inner
     if isinstance(r, tuple) and ((len(r) == 5 and r[0] == "comp" and r[1] == "gen") or (len(r) == 3 and r[0] == "gen")):
         # `x in <one-shot iterator>` consumes the iterator up to the first match: the answer
         # depends on what was consumed before - nothing is learnt about x
@@ -356,6 +364,22 @@ def _identity(w, e, s, l, r, positive, outs):
     if is_const(l) and is_const(r) and isinstance(r[2], bool):
         outs.append((s, "val", C((l[2] is r[2]) == positive)))
         return
+    if all(isinstance(x, tuple) and len(x) == 2 and x[0] == "global" and x[1].startswith(("builtin:", "class:")) for x in (l, r)):
+        outs.append((s, "val", C((l == r) == positive)))  # two classes: the same object or not
+        return
+    # type(x) is T (either way round) with T a builtin type: on the True side x is a T; the False
+    # side says nothing usable (x may still be of a subclass)
+    for tx, tt in ((l, r), (r, l)):
+        if is_call(tx, "builtin:type") and len(tx[2]) == 1 and isinstance(tt, tuple) and len(tt) == 2 and tt[0] == "global" and tt[1].startswith("builtin:") and tt[1][8:] in ("str", "int", "float", "bool", "bytes", "bytearray", "memoryview", "dict", "list", "tuple", "set", "frozenset", "NoneType"):
+            x, name = tx[2][0], tt[1][8:]
+            ts = s.types(x)
+            a, b = s.copy(), s.copy()
+            a.add(("is", l, r), ("type", x, frozenset([name])))
+            b.add(("isnot", l, r))
+            ok_a = not (ts is not None and name not in ts) and not s.holds(("isnot", l, r))
+            ok_b = not (ts is not None and ts <= {name} and name in ("bool", "NoneType")) and not s.holds(("is", l, r))
+            _emit(outs, a if ok_a else None, b if ok_b else None, positive)
+            return
     a, b = s.copy(), s.copy()
     a.add(("is", l, r))
     b.add(("isnot", l, r))
